@@ -282,7 +282,13 @@ class ParsedComponentLink(ComponentLink):
         self._parsed = parsed
 
     def compute(self, data, view=None):
-        return self._parsed.evaluate(data, view)
+        # The expression does not have to be element-wise (e.g.
+        # '{x} - np.mean({x})'), so it is evaluated for the whole dataset and
+        # the view is applied to the result, as ParsedSubsetState.to_mask does
+        result = self._parsed.evaluate(data)
+        if view is not None:
+            result = result[view]
+        return result
 
     def replace_ids(self, old, new):
         super(ParsedComponentLink, self).replace_ids(old, new)
